@@ -1002,18 +1002,17 @@ class Emitter:
             return finish('%s(%s)' % (s.gname(nm), ', '.join(args)))
         # indirect call: slot-based devirtualisation for virtual calls, exact-IR-type for other pointers
         fp = s.val(TPtr(TInt(8)), callee)
-        cands = s.indirect_candidates(ins, rt)
-        if cands is None or not cands:
-            # harness-provided dispatcher
-            key = 'r%s_%s' % (s.ctype(rt).replace('*', 'p'), '_'.join(s.ctype(t).replace('*', 'p') for t, _ in ins.args))
-            dn = '__ir_indirect_' + key
-            s.dispatchers[dn] = '%s %s(u8* fp%s)' % (s.ctype(rt), dn, ''.join(', ' + s.ctype(t) for t, _ in ins.args))
-            return finish('%s(%s)' % (dn, ', '.join([fp] + args)))
+        cands = s.indirect_candidates(ins, rt) or []
+        # candidates known from the module first; anything else goes to a dispatcher __ir_indirect_<sig>(fp, args...) whose
+        # default body (generated, overridable by the harness with -DVP_DISPATCH_<sig>) is an assertion failure
+        key = 'r%s_%s' % (s.ctype(rt).replace('*', 'p'), '_'.join(s.ctype(t).replace('*', 'p') for t, _ in ins.args))
+        dn = '__ir_indirect_' + key
+        s.dispatchers[dn] = (s.ctype(rt), [s.ctype(t) for t, _ in ins.args], key)
         w('  { u8* fp_ = %s;' % fp)
         for c_ in cands:
             s.need_funcs[c_] = True
             w('    if (fp_ == (u8*)%s) { %s%s(%s); } else' % (s.gname(c_), R + ' = ' if R else '', s.gname(c_), ', '.join(args)))
-        w('    { __ir_bad_indirect(); } }')
+        w('    { %s%s(%s); } }' % (R + ' = ' if R else '', dn, ', '.join(['fp_'] + args)))
         return finish('0' if not R else R)
 
     def vtable_slots(s):
@@ -1181,14 +1180,19 @@ def main():
             gl_done.add(nm); progress = True
             d, ini = em.emit_global(nm)
             gl_defs.append(d); gl_inits.extend(ini)
+    dispatch_bodies = []
     with open(a.out, 'w') as fo:
         fo.write(PRELUDE)
         fo.write('\n'.join(em.struct_defs) + '\n')
         fo.write('\n'.join(protos) + '\n')
-        fo.write('\n'.join(v + ';' for v in em.dispatchers.values()) + '\n')
+        for dn, (rt_, ats, key) in em.dispatchers.items():
+            proto = '%s %s(u8* fp%s)' % (rt_, dn, ''.join(', %s a%d' % (t, i) for i, t in enumerate(ats)))
+            fo.write('%s;\n' % proto)
+            dispatch_bodies.append('#ifndef VP_DISPATCH_%s\n%s { __ir_bad_indirect(); %s }\n#endif' % (key, proto, '' if rt_ == 'void' else 'return (%s)%s;' % (rt_, '{{0}}' if rt_.startswith('agg') else '0')))
         fo.write('\n'.join(gl_defs) + '\n')
         fo.write('void __ir_rt_init(void);\nvoid __ir_init_globals(void) {\n  __ir_rt_init();\n' + '\n'.join(gl_inits) + '\n}\n')
         fo.write('\n\n'.join(bodies) + '\n')
+        fo.write('\n'.join(dispatch_bodies) + '\n')
     ext = sorted(n[1:] for n in done if n not in mod.funcs or n[1:] in stubs)
     if a.info:
         json.dump({'translated': translated, 'externs': ext, 'globals': sorted(gl_done), 'dispatchers': sorted(em.dispatchers), 'ir_sha256': h.hexdigest()}, open(a.info, 'w'), indent=1)
